@@ -1,6 +1,21 @@
-"""C13 — dataset load/release schedule is safe and results are selected correctly.   (BOUNDED stand-in, not a proof)
+"""C13 — dataset load/release schedule is safe and results are selected correctly.
 
-Contracts on the real functions, checked on an exhaustive bounded enumeration of dependency graphs:
+TIER 1 (deductive, checks/_schedproof.py - proof obligations, scripts of ANY size):
+  DAGAnalyzer._ds_usage_analysis: one iteration of each of its three real loop bodies from an ARBITRARY loop state
+     (vc.pyvc; dicts / sets / lists as SMT arrays), pointwise invariants with ghost values: every global input is in
+     exactly one insertion[k], k = its first reader; every name in exactly one deletion[k'], k' = its last reader (its
+     producer when unread); persistent / all_outputs / global_inputs as defined.
+  load_scheduled_datasets / cleanup_scheduled_datasets: the whole real function for one generic scheduled element;
+     execute_queries: one iteration of each of its two loops (harness of checks/C14.py: recording connection).
+  Ghost table store: the per-iteration effect summaries extracted from those paths, composed with the schedule
+     contract into one statement step for a free name x: the history invariant is preserved, every table read is live at
+     CREATE, inputs are loaded at most once, every name is dropped exactly once at its slot, results are fetched before
+     their drop and never twice, and the returned keys are the selected assignments (z3 / cvc5).
+  Alignment: one iteration of SQLTranspiler.visit_Start's loop (k-th query = k-th assignment) and the dataflow of
+     `ast` in run().
+  Induction over loops / statements: stated meta-argument.  Preconditions (sorted, single-assignment numbering) from C12.
+
+TIER 2 (BOUNDED, unchanged): contracts on the real functions, checked on an exhaustive bounded enumeration of dependency graphs:
 
   DAGAnalyzer.ds_structure(ast) -> DatasetSchedule   (after create_dag, as API.run calls it)
   io._execution.execute_queries / load_scheduled_datasets / cleanup_scheduled_datasets
@@ -173,11 +188,17 @@ def norm(v: Any) -> Any:
 
 
 def main() -> None:  # noqa: C901
-    chk = Check("C13", "exploration", "contracts on DAGAnalyzer.ds_structure and the real execute_queries / load / cleanup "
+    chk = Check("C13", "proof", "loop-step obligations (one iteration of each real loop body of _ds_usage_analysis, "
+                "load_scheduled_datasets, cleanup_scheduled_datasets, execute_queries, SQLTranspiler.visit_Start from an "
+                "arbitrary state; vc.pyvc with SMT arrays for dicts / sets / lists) with pointwise ghost invariants, and a "
+                "ghost-table-store statement step composed from the extracted effect summaries, discharged by z3 / cvc5; "
+                "native replay; PLUS the bounded tier: contracts on DAGAnalyzer.ds_structure and the real execute_queries / load / cleanup "
                 "code, checked on an exhaustive bounded enumeration of dependency graphs by replaying the real executor "
                 "against a ghost table store, plus sampled real DuckDB runs of the extracted API.run against an "
-                "independent evaluation", min_obligations=5)
+                "independent evaluation", min_obligations=30)
     core.boot(full=True)
+    import _schedproof
+    _schedproof.run(chk)                   # tier 1: proof obligations (never `bounded`)
     from vtlengine.AST.DAG import DAGAnalyzer
     import pandas as pd
     rng = random.Random(chk.seed)
@@ -288,7 +309,8 @@ def main() -> None:  # noqa: C901
                         "two readers of one input"
     chk.extra["extraction_drops"] = P.EXTRACTION_DROPS
     chk.samples = samples + [v[1] for v in fails.values()][:3]
-    chk.assume("BOUNDED: nothing is proved beyond the enumerated graph shapes")
+    chk.assume("BOUNDED tier (the obligations marked bounded): nothing is shown by it beyond the enumerated graph shapes; it is "
+               "the only tier that runs the real DuckDB ('each computed from the full script') and the real loaders")
     chk.assume("ghost store: loaders / fetch_result are replaced by recording stand-ins (harness-side); the DuckDB catalog "
                "is assumed to behave like the ghost set for CREATE TABLE / DROP TABLE IF EXISTS")
     chk.assume("statement numbering of the transpiler's queries equals the numbering of ds_structure (exercised only "
